@@ -47,6 +47,11 @@ THEOREMS = {"Artap.Props.C06": [
     "C06_replacement_reads_own_keys", "C06_replacement_is_gen_vector", "C06_replacement_in_bounds", "C06_replacement_in_own_box",
     "C06_integer_replacement_in_integer_bounds", "C06_retried_vectors_in_bounds", "C06_stored_vector_in_bounds"]}
 AXIOMS_OK = []
+# second tie to the code (tools/py2coq.py + front-end tools/py2coq_eff.py + coq/theories/GenProofs): the source of
+# Job.evaluate is translated on every run (try/except as a match on the objective's outcome, raise as a result, the
+# re-draw and sync_individual as effects in order) and proved equal to Model/Job.v job_evaluate for all inputs
+from harness.core import translated_specs
+TRANSLATED = translated_specs("SignedCostsGen", "JobGen")
 TRUSTED = [
     "Coq 8.16.1 kernel, vm_compute for model evaluation (no native_compute)",
     "hand-written model Model/Job.v (shared with C05) tied to job.py / operators.py by this correspondence run",
